@@ -3,6 +3,6 @@ import json, vlib, pmcheck
 def run(ctx, V):
     import C06
     pmcheck.standard_run(ctx, V, ["alive", "c03", "protocol", "wedge"], extract=["Extract/ExClient.vo", "Extract/ExEnqueue.vo"], n_quick=500)
-    C06.correspond(ctx, V, n=120 if ctx.tier == "quick" else 3000)
+    C06.correspond(ctx, V, n=300 if ctx.tier == "quick" else 6000)
 def replay(ctx, V, path):
     print(json.dumps(json.load(open(path)), indent=1)[:6000]); return 0
